@@ -15,6 +15,18 @@ import (
 )
 
 // pageAll walks a paginated query to the end. mode "key" follows next_key, mode "offset" advances the offset.
+// pageAllRev pages in reverse order and returns the items in ascending order again.
+func pageAllRev[T any](fetch func(pr *query.PageRequest) ([]T, *query.PageResponse, error), limit uint64, mode string, countTotal bool) (items []T, total uint64, pages int, err error) {
+	items, total, pages, err = pageAll(func(pr *query.PageRequest) ([]T, *query.PageResponse, error) {
+		pr.Reverse = true
+		return fetch(pr)
+	}, limit, mode, countTotal)
+	for i, j := 0, len(items)-1; i < j; i, j = i+1, j-1 {
+		items[i], items[j] = items[j], items[i]
+	}
+	return
+}
+
 func pageAll[T any](fetch func(pr *query.PageRequest) ([]T, *query.PageResponse, error), limit uint64, mode string, countTotal bool) (items []T, total uint64, pages int, err error) {
 	pr := &query.PageRequest{Limit: limit, CountTotal: countTotal}
 	for guard := 0; guard < 10000; guard++ {
@@ -86,13 +98,18 @@ func supplyQueries(e *Exec) []Disc {
 	for _, path := range []string{"/mainchain.enterprise.v1.Query/TotalSupply", "/mainchain.enterprise.v1.Query/TotalSupplyOverwrite"} {
 		for limit := uint64(1); limit <= n+1; limit++ {
 			for _, mode := range []string{"key", "offset"} {
-				for _, ct := range []bool{false, true} {
-					items, total, _, err := pageAll(func(pr *query.PageRequest) ([]sdk.Coin, *query.PageResponse, error) {
+				for ci, ct := range []bool{false, true, false} {
+					rev := ci == 2 // the same walk in reverse order
+					walk := pageAll[sdk.Coin]
+					if rev {
+						walk = pageAllRev[sdk.Coin]
+					}
+					items, total, _, err := walk(func(pr *query.PageRequest) ([]sdk.Coin, *query.PageResponse, error) {
 						var r enttypes.QueryTotalSupplyResponse
 						err := w.Query(path, &enttypes.QueryTotalSupplyRequest{Pagination: pr}, &r)
 						return r.Supply, r.Pagination, err
 					}, limit, mode, ct)
-					tag := fmt.Sprintf("%s limit=%d %s count_total=%v", path[strings.LastIndex(path, "/")+1:], limit, mode, ct)
+					tag := fmt.Sprintf("%s limit=%d %s count_total=%v reverse=%v", path[strings.LastIndex(path, "/")+1:], limit, mode, ct, rev)
 					if err != nil {
 						add("%s failed: %v", tag, err)
 						continue
@@ -166,7 +183,7 @@ func init() {
 		return &Check{ID: "C17",
 			Runs: []Run{{S: sc, Opt: map[Tier]Options{
 				Quick:    {Depth: 3, Budget: 150 * time.Second, ReplayEvery: 16},
-				Thorough: {Depth: 5, Budget: 25 * time.Minute, ReplayEvery: 32, MaxStates: 300000},
+				Thorough: {Depth: 5, Budget: 12 * time.Minute, ReplayEvery: 32, MaxStates: 300000},
 			}}},
 			Owns:        ownsAny("supplyquery"),
 			Assumptions: []string{"which HTTP route wins in the REST gateway is router configuration and not part of the state space; the gRPC query servers (incl. the *Overwrite methods that shadow the bank endpoints) are what is checked", "EnterpriseSupply has uint64 fields: not judged beyond 2^64 nund"},
